@@ -464,10 +464,20 @@ running.  Every `Stop` but the router's returns nil.  `Router.Stop` is
 flight, otherwise nil iff the requests in flight finish within `grace` (nanoseconds; `time.Minute`
 in the code).
 -/
-inductive Comp | app | incomingRouter | peerRouter | collector | upstreamTx | peerTx
+inductive Comp
+  | app                 -- stops the OpAMP agent when OpAMP is enabled
+  | incomingRouter | peerRouter | collector
+  | configWatcher       -- subscribes to the config topic only when OpAMP is disabled; Stop guards the nil subscription
+  | stressRelief | samplerFactory | health | sharder | peers | pubsub | metrics
+  | upstreamTx | peerTx
   deriving DecidableEq, Repr
 
-def stopOrder : List Comp := [.app, .incomingRouter, .peerRouter, .collector, .upstreamTx, .peerTx]
+/-- the order `startstop.Stop` derives from main.go's graph (dependants first); it is the same for
+every configuration — which components do something in `Start` / `Stop` differs (the agent and the
+config watcher's subscription depend on `OpAMP.Enabled`), not which are stopped -/
+def stopOrder : List Comp :=
+  [.app, .incomingRouter, .peerRouter, .collector, .configWatcher, .stressRelief, .samplerFactory, .sharder,
+   .upstreamTx, .peerTx, .health, .peers, .pubsub, .metrics]
 
 /-- does this component's `Stop` return nil: `grace` = the router's shutdown timeout, `finishIn` =
 `some d` when a request is in flight on the incoming listener and completes after `d` -/
